@@ -101,6 +101,50 @@ theorem C07_cmp_current (op : BinOp) (hop : op.isCompare = true) (l r x : ArrV)
       x.data = bmap2 op.fn out l.shape r.shape l.phys r.phys :=
   C07_cmp _ op hop l r x generated_bool_dimensionless hc hl h
 
+theorem to_convert (r : ArrV) (u : U) (hs : r.unit.same u = false) (hcv : r.unit.convertible u = true) :
+    ∃ r', r.to u = .ok (r', false) ∧ r'.data = r.data.map (· * U.ratio r.unit u) ∧ r'.shape = r.shape := by
+  unfold ArrV.to
+  simp only [hs, hcv, Bool.false_eq_true, if_false, Bool.not_true]
+  exact ⟨_, rfl, rfl, rfl⟩
+
+/-- **C07 (the plan is the operation)**: whatever the values, `_binary_op` applies the numpy kernel named by
+    `binaryPlan` to the left values and the right values scaled by the plan's ratio. The correspondence check
+    evaluates that plan with numpy itself on operands holding nan / +-inf, which the rational model cannot hold. -/
+theorem C07_plan_agrees (T : Tables) (op : BinOp) (l r x : ArrV) (h : ArrV.binaryOp T op l r = .ok x) :
+    ∃ p out, binaryPlan op l.unit r.unit = .ok p ∧ p.npName = op.npName ∧
+      bshape l.shape r.shape = some out ∧
+      x.data = bmap2 op.fn out l.shape r.shape l.data (r.data.map (· * p.ratio)) := by
+  unfold ArrV.binaryOp at h
+  unfold binaryPlan
+  by_cases hs : r.unit.same l.unit = true
+  · -- identity shortcut: the right operand is used as it is
+    have hto : r.to l.unit = .ok (r, true) := by simp [ArrV.to, hs]
+    simp only [hto, bind, Except.bind, pure, Except.pure] at h
+    have h' : ArrV.applyBin T op l r = .ok x := by
+      cases hst : op.strict <;> simp [hst] at h <;> exact h
+    obtain ⟨out, hout, _, _, hxd, _⟩ := applyBin_spec T op l r x h'
+    refine ⟨⟨op.npName, 1, false⟩, out, by simp [hs], rfl, hout, ?_⟩
+    simpa using hxd
+  · have hs' : r.unit.same l.unit = false := by simpa using hs
+    by_cases hcv : r.unit.convertible l.unit = true
+    · obtain ⟨r', hto, hd', hsh'⟩ := to_convert r l.unit hs' hcv
+      simp only [hto, bind, Except.bind, pure, Except.pure] at h
+      have h' : ArrV.applyBin T op l r' = .ok x := by
+        cases hst : op.strict <;> simp [hst] at h <;> exact h
+      obtain ⟨out, hout, _, _, hxd, _⟩ := applyBin_spec T op l r' x h'
+      rw [hsh'] at hout hxd
+      rw [hd'] at hxd
+      exact ⟨⟨op.npName, U.ratio r.unit l.unit, true⟩, out, by simp [hs', hcv], rfl, hout, hxd⟩
+    · have hcv' : r.unit.convertible l.unit = false := by simpa using hcv
+      have hto : r.to l.unit = .error .dimErr := by simp [ArrV.to, hs', hcv']
+      cases hst : op.strict
+      · simp only [hst, hto, bind, Except.bind, pure, Except.pure] at h
+        have h' : ArrV.applyBin T op l r = .ok x := by simpa using h
+        obtain ⟨out, hout, _, _, hxd, _⟩ := applyBin_spec T op l r x h'
+        refine ⟨⟨op.npName, 1, false⟩, out, by simp [hs', hcv', hst], rfl, hout, ?_⟩
+        simpa using hxd
+      · simp [hst, hto, bind, Except.bind] at h
+
 /-! non-vacuity: 1 m > 99 cm although 1 < 99 -/
 example : ∃ x, ArrV.binaryOp Reference.tables .gt
     { shape := [1], dtype := .f8, data := [1], unit := um }
